@@ -820,7 +820,10 @@ class Comparison(Predicate):
 
     @functools.cached_property
     def factors(self: 'Comparison') -> 'dsl.Predicate.Factors':
-        return Predicate.Factors(self) if len({f.origin for f in Column.dissect(self)}) == 1 else Predicate.Factors()
+        elements = Element.dissect(self)
+        if all(isinstance(e, Column) for e in elements) and len({e.origin for e in elements}) == 1:
+            return Predicate.Factors(self)
+        return Predicate.Factors()
 
 
 class LessThan(Comparison, Infix):
